@@ -794,6 +794,9 @@ def check_inventory(run, cx, cfg):
 
 
 def run(run, tier, loadcfg):
+    if tier == 'thorough':
+        import witness
+        witness.check(run, 'c06', 3)
     run.rule_text = ('one obligation per (method x path x rule): memory safety of every access on the path, invariant preservation, refinement of the ideal-queue '
                      'specification; plus constructor, forwarder and inventory obligations. Each is an entailment over all (start, len, cap, index).')
     run.explanation = 'See module docstring; per-operation forward simulation of the ideal bounded queue / delay line.'
